@@ -244,7 +244,8 @@ def check_cycles_rules(ctx, rep, rule):
     p = ctx.prog
     forms = []
     for cls in [r.sched] + r.nestable:
-        f = p.supplier(cls, 'check_cycles')
+        # (an override that only hands over to the parent's implementation is that implementation)
+        f = p.effective_supplier(cls, 'check_cycles')
         if f is not None and f not in forms:
             forms.append(f)
     rep.need(rule, len(forms), 1, "check_cycles implementations")
@@ -277,6 +278,12 @@ def check_cycles_rules(ctx, rep, rule):
             elif _all_nested_ok(ctx, v):
                 # return all(n.check_cycles() for n in <nested members met by the scan>)
                 rep.ok(rule, "%s returns all(nested.check_cycles() ...) over the scan" % e.where)
+                e.data['all_form'] = True
+            elif v[0] in ('call', 'mcall') and (v[0] == 'mcall' or v[1] in ('all', 'any', 'bool', 'not')):
+                # a verdict computed by something this rule cannot read (a hook dispatched on the class of self,
+                # say): neither accepted nor refuted
+                rep.error(rule, "%s: the returned value %s is not one of the forms this rule can decide"
+                          % (e.where, T.show(v, 3)[:120]))
                 e.data['all_form'] = True
             else:
                 rep.fail(rule, "%s returns a boolean" % e.where, fn, "`%s`" % src(stmt_of(e.node)),
@@ -352,6 +359,11 @@ def check_cycles_rules(ctx, rep, rule):
         from .common import topo_loops
         # (the numbering helper that list() calls first has its own loop: it is a consumer of its own)
         uses = topo_loops(ctx, f, exclude={x for x in ('list', '_set_sched_ids', '_dot_body') if x != name})
+        from .common import topo_consumed_opaquely
+        if not uses and topo_consumed_opaquely(ctx, f):
+            rep.error(rule, "%s hands self.topological_order() to a fold (reduce / map ...): the order is used, "
+                            "in a form this rule cannot read" % f.qualname)
+            continue
         rep.check(bool(uses), rule, "%s iterates in topological order" % f.qualname, f.qualname,
                   "%s does not loop over self.topological_order()" % f.qualname,
                   "jobs are numbered / listed / drawn in an order that is not a linear extension")
@@ -1180,7 +1192,13 @@ def _traversal(ctx, rep, rule):
     if len(hooks) != 1:
         return
     hook = hooks.pop()
-    impls = [(c, c.methods[hook]) for c in p.classes.values() if hook in c.methods]
+    impls = []
+    for c in p.classes.values():
+        if hook in c.methods:
+            # (an implementation that only hands over to another one is that other one)
+            f_ = p.effective_supplier(c, hook)
+            if f_ is not None and not any(f_ is g for _c, g in impls):
+                impls.append((f_.cls, f_))
     for cls, f in impls:
         an, ip, out = ctx.explore(f, model=GraphModel)
         ys = an.events('YIELD')
@@ -1411,6 +1429,13 @@ def surgery(ctx, rep, r1, r2, r3):
         recv = e.data['recv']
         if recv[0] == 'elem':
             DOWN = recv[1]
+    if calls and (DOWN is None or any(e.data['recv'][0] != 'elem' or (e.data['args'] and e.data['args'][0][0] != 'elem')
+                                     for e in calls)):
+        # the re-linking does not range over two recognisable collections (pairs taken from a product, a table
+        # ...): this rule cannot read it - neither accepted nor refuted
+        rep.error(r2, "%s: re-linking `%s` is not a loop nest over (upstreams x downstreams) that this rule can read"
+                  % (fn, src(stmt_of(calls[0].node))[:80]))
+        return
     okdown = False
     if DOWN is not None:
         c = strip_coll(DOWN)
